@@ -37,10 +37,12 @@ def make_config(seed, tier="quick"):
     u8_live = r8.random() < 0.3
     rich_slots = r8.random() < 0.3
     user_groups = r8.random() < 0.15
+    p_hook_raise = r8.choice([0.0, 0.0, 0.0, 0.0, 0.2])
     return dict(
         u8_live=u8_live,
         rich_slots=rich_slots,
         user_groups=user_groups,
+        p_hook_raise=p_hook_raise,
         seed=seed,
         eut_role=r.choice(["acceptor", "initiator"]),
         hb=1000,
@@ -83,6 +85,7 @@ class ResendSim(PeerSim):
         self.peer.auto.update(testreq=False, resend=False, logout=False)
         self.peer.next_out = cfg["eut_in"]
         self.eut.replay_filter = lambda m: not str(m.get(FTag.Text, "")).startswith("NOREPLAY")
+        self.replay_hook_failed = set()
         self.n_req = 0
         self.rr_busy = False
         self.n_live = 0
@@ -161,6 +164,12 @@ class ResendSim(PeerSim):
 
     def hook_p(self, label, hname):
         return self.cfg["p_hook"] if hname in ("should_replay", "on_state_change") else 0.0
+
+    def hook_raise_p(self, label, hname):
+        # fault injection: the application's should_replay() fails for a message (neither agrees nor declines):
+        # the library logs handler failures and carries on - the reply is still a complete chain (the number is
+        # covered one way or the other) and the state is restored
+        return self.cfg.get("p_hook_raise", 0.0) if hname == "should_replay" else 0.0
 
     # --------------------------------------------------------------- actions
     def session_up(self):
@@ -450,6 +459,11 @@ class ResendSim(PeerSim):
             if str(d0.get("58", "")).startswith("NOREPLAY"):
                 if n in seen_retx:
                     bad("declined-message-retransmitted", f"34={n} retransmitted although should_replay declined")
+                continue
+            if str(n) in self.replay_hook_failed:
+                # should_replay() failed for this number (injected): retransmitted or gap-filled, either is fine,
+                # the chain and the state clauses still apply
+                self.probe("number_whose_should_replay_failed_" + ("retransmitted" if n in seen_retx else "gap_filled"))
                 continue
             if n not in seen_retx and pos > n:
                 bad("message-gap-filled", f"journaled application message 34={n} was gap-filled instead of retransmitted")
